@@ -1,5 +1,373 @@
 import Driver.Proto
+import TonicModel.Basic.HMapLite
+import TonicModel.Model.Interceptor
+import TonicModel.Spec.Interceptor
+/-
+C12 driver: parses a case (see harness/src/c12.rs for the grammar), runs the model
+(`Interceptor.runCalls` with the scripted interceptor and a scripted wrapped service), renders
+the canonical tokens, and evaluates `Spec.Interceptor` on what the implementation was observed
+to do.
+-/
 namespace DriverC12
-/-- stub: property not yet claimed -/
-def handle (_case _obs : List String) : String × String := ("unclaimed", "fail:unclaimed")
+open Proto HMapLite HttpLite Interceptor
+
+/-! ### token parser -/
+
+abbrev P := StateT (List String) Option
+
+def next : P String := fun ts => match ts with
+  | [] => none
+  | t :: r => some (t, r)
+
+def pnat : P Nat := do
+  let t ← next
+  match t.toNat? with
+  | some n => pure n
+  | none => failure
+
+def pbytes : P Bytes := do
+  let t ← next
+  match unhex t with
+  | some b => pure b
+  | none => failure
+
+def pflag : P Bool := do
+  let t ← next
+  if t == "0" then pure false else if t == "1" then pure true else failure
+
+def rep {α} (p : P α) : Nat → P (List α)
+  | 0 => pure []
+  | n + 1 => do
+    let x ← p
+    let xs ← rep p n
+    pure (x :: xs)
+
+/-- `count (name value sens)*`, names normalised as `HeaderName::from_bytes` does; entries in
+`append` order -/
+def phdrs : P Hdrs := do
+  let n ← pnat
+  rep (do
+    let name ← pbytes
+    let v ← pbytes
+    let s ← pflag
+    pure (normName name, (v, s))) n
+
+/-- `count (id value)*`, inserted in order -/
+def pext : P Ext := do
+  let n ← pnat
+  let xs ← rep (do
+    let id ← pnat
+    let v ← pbytes
+    pure (id, v)) n
+  pure (xs.foldl (fun acc e => Ext.set e.1 e.2 acc) [])
+
+def pbody : P Body := do
+  let n ← pnat
+  let chunks ← rep pbytes n
+  let t ← next
+  if t == "notr" then pure { chunks := chunks, trailers := none }
+  else if t == "tr" then do
+    let h ← phdrs
+    pure { chunks := chunks, trailers := some h }
+  else failure
+
+def pop : P Op := do
+  let t ← next
+  match t with
+  | "hins" => do let n ← pbytes; let v ← pbytes; let s ← pflag; pure (.hins n (v, s))
+  | "happ" => do let n ← pbytes; let v ← pbytes; let s ← pflag; pure (.happ n (v, s))
+  | "hrem" => do let n ← pbytes; pure (.hrem n)
+  | "mins" => do let n ← pbytes; let v ← pbytes; pure (.mins n v)
+  | "mapp" => do let n ← pbytes; let v ← pbytes; pure (.mapp n v)
+  | "mrem" => do let n ← pbytes; pure (.mrem n)
+  | "bins" => do let n ← pbytes; let v ← pbytes; pure (.bins n v)
+  | "bapp" => do let n ← pbytes; let v ← pbytes; pure (.bapp n v)
+  | "brem" => do let n ← pbytes; pure (.brem n)
+  | "clear" => pure .clear
+  | "cnt" => do let n ← pbytes; pure (.cnt n)
+  | "xset" => do let id ← pnat; let v ← pbytes; pure (.xset id v)
+  | "xrm" => do let id ← pnat; pure (.xrm id)
+  | "xclear" => pure .xclear
+  | _ => failure
+
+def pscript : P Script := do
+  let n ← pnat
+  let ops ← rep pop n
+  let t ← next
+  if t == "ok" then pure { ops := ops, reject := none }
+  else if t == "rej" then do
+    let _ctor ← pnat
+    let code ← pnat
+    let msg ← pbytes
+    let details ← pbytes
+    let _src ← pflag
+    let md ← phdrs
+    pure { ops := ops, reject := some { code := codeFromI32 code, message := msg, details := details, metadata := md } }
+  else failure
+
+/-- the wrapped service's scripted answer -/
+abbrev RespScript := Except Nat (Response Body)
+
+def presp : P RespScript := do
+  let t ← next
+  if t == "e" then do
+    let n ← pnat
+    pure (.error n)
+  else if t == "r" then do
+    let status ← pnat
+    let version ← pnat
+    let h ← phdrs
+    let x ← pext
+    let b ← pbody
+    pure (.ok { status := status, version := version, headers := h, ext := x, body := b })
+  else failure
+
+/-- The body type the model is instantiated with: the request body proper plus the scripted
+answer travelling with it (the model cannot look inside `β`). -/
+abbrev B := Body × RespScript
+
+def pcall : P (Request B) := do
+  let method ← pbytes
+  let version ← pnat
+  let uri ← pbytes
+  let h ← phdrs
+  let x ← pext
+  let b ← pbody
+  let r ← presp
+  pure { method := method, version := version, uri := uri, headers := h, ext := x, body := (b, r) }
+
+structure Case where
+  scripts : List Script
+  calls : List (Request B)
+
+def pcase : P Case := do
+  let _kind ← next
+  let _via ← next
+  let ns ← pnat
+  let scripts ← rep pscript ns
+  let nc ← pnat
+  let calls ← rep pcall nc
+  pure { scripts := scripts, calls := calls }
+
+def parseCase (ts : List String) : Option Case :=
+  match pcase ts with
+  | some (c, []) => some c
+  | _ => none
+
+/-! ### rendering -/
+
+def flagTok (b : Bool) : String := if b then "1" else "0"
+
+def showHdrs (h : Hdrs) : String :=
+  String.intercalate " " (toString h.length :: (canon h).map (fun e => s!"{hex e.1} {hex e.2.1} {flagTok e.2.2}"))
+
+def showExt (x : Ext) : String :=
+  String.intercalate " " (toString x.length :: toString x.length ::
+    (Ext.canon x).map (fun e => s!"{e.1} {hex e.2}"))
+
+def showBody (b : Body) : String :=
+  String.intercalate " " ([toString b.chunks.length] ++ b.chunks.map hex ++
+    [match b.trailers with
+     | none => "notr"
+     | some h => "tr " ++ showHdrs h])
+
+def showStatus (st : GStatus) : String :=
+  s!"{st.code} {hex st.message} {hex st.details} {showHdrs st.metadata}"
+
+def bodyEos (b : Body) : Bool := b.chunks.isEmpty && b.trailers.isNone
+def bodySize (b : Body) : Nat := (b.chunks.map List.length).foldl (· + ·) 0
+
+def showOutcome : Outcome Body Nat → Option String
+  | .panic => none
+  | .error n => some s!"outerr {n}"
+  | .response r =>
+    let eos := RespBody.isEndStream bodyEos r.body
+    let sz := RespBody.sizeHint bodySize r.body
+    some s!"out {r.status} {r.version} {showHdrs r.headers} {showExt r.ext} {flagTok eos} {sz} {sz} {showBody (RespBody.frames id r.body)}"
+
+def showSaw : Option (Request B) → String
+  | none => "noinner"
+  | some r => s!"inner {hex r.method} {r.version} {hex r.uri} {showHdrs r.headers} {showExt r.ext} {showBody r.body.1}"
+
+/-- the scripted wrapped service: counts invocations, answers with the script carried in the body -/
+def recorder : Inner Nat B Body Nat := fun n r => (n + 1, r.body.2)
+
+def runModel (c : Case) : String :=
+  let (st, ncalls, results) := runCalls (logged (scripted c.scripts)) recorder (0, []) 0 c.calls
+  let log := st.2
+  let lines := (log.zip results).map (fun (l, res) =>
+    let isaw := s!"isaw {showHdrs l.1.1} {showExt l.1.2}"
+    let dec := match l.2 with
+      | .ok (md, x) => s!"iret {showHdrs md} {showExt x}"
+      | .error st => s!"irej {showStatus st}"
+    match showOutcome res.2 with
+    | none => none
+    | some o => some s!"{isaw} {dec} {showSaw res.1} {o}")
+  if lines.any Option.isNone then "panic"
+  else String.intercalate " " (lines.filterMap id ++ [s!"calls {ncalls}"])
+
+/-! ### parsing the observation, evaluating the oracle on it -/
+
+/-- observed `hdrs` (already lower-case): keep as given -/
+def ohdrs : P Hdrs := do
+  let n ← pnat
+  rep (do
+    let name ← pbytes
+    let v ← pbytes
+    let s ← pflag
+    pure (name, (v, s))) n
+
+/-- observed `total-len count (id value)*` -/
+def oext : P (Nat × Ext) := do
+  let total ← pnat
+  let n ← pnat
+  let xs ← rep (do
+    let id ← pnat
+    let v ← pbytes
+    pure (id, v)) n
+  pure (total, xs)
+
+def obody : P Body := do
+  let n ← pnat
+  let chunks ← rep pbytes n
+  let t ← next
+  if t == "notr" then pure { chunks := chunks, trailers := none }
+  else if t == "tr" then do
+    let h ← ohdrs
+    pure { chunks := chunks, trailers := some h }
+  else failure
+
+structure ObsOut where
+  resp : Response Body
+  extTotal : Nat
+  eos : Bool
+  lo : Nat
+  hi : Option Nat
+
+structure ObsCall where
+  isawH : Hdrs
+  isawX : Nat × Ext
+  decision : Spec.Interceptor.Decision
+  iretXTotal : Nat
+  saw : Option (Request Body × Nat)
+  out : Except Nat ObsOut
+
+def ocall : P ObsCall := do
+  let t ← next
+  if t != "isaw" then failure
+  let ih ← ohdrs
+  let ix ← oext
+  let t ← next
+  let (dec, tot) ← (if t == "iret" then do
+      let h ← ohdrs
+      let x ← oext
+      pure (Spec.Interceptor.Decision.accept h x.2, x.1)
+    else if t == "irej" then do
+      let code ← pnat
+      let msg ← pbytes
+      let det ← pbytes
+      let md ← ohdrs
+      pure (Spec.Interceptor.Decision.reject { code := code, message := msg, details := det, metadata := md }, 0)
+    else failure : P (Spec.Interceptor.Decision × Nat))
+  let t ← next
+  let saw ← (if t == "noinner" then pure none
+    else if t == "inner" then do
+      let m ← pbytes
+      let v ← pnat
+      let u ← pbytes
+      let h ← ohdrs
+      let x ← oext
+      let b ← obody
+      pure (some ({ method := m, version := v, uri := u, headers := h, ext := x.2, body := b }, x.1))
+    else failure : P (Option (Request Body × Nat)))
+  let t ← next
+  let out ← (if t == "outerr" then do
+      let n ← pnat
+      pure (.error n)
+    else if t == "out" then do
+      let status ← pnat
+      let version ← pnat
+      let h ← ohdrs
+      let x ← oext
+      let eos ← pflag
+      let lo ← pnat
+      let hiT ← next
+      let hi ← (match optNat? hiT with
+        | some v => pure v
+        | none => failure : P (Option Nat))
+      let b ← obody
+      pure (.ok { resp := { status := status, version := version, headers := h, ext := x.2, body := b },
+                  extTotal := x.1, eos := eos, lo := lo, hi := hi })
+    else failure : P (Except Nat ObsOut))
+  pure { isawH := ih, isawX := ix, decision := dec, iretXTotal := tot, saw := saw, out := out }
+
+def pobs (n : Nat) : P (List ObsCall × Nat) := do
+  let cs ← rep ocall n
+  let t ← next
+  if t != "calls" then failure
+  let k ← pnat
+  pure (cs, k)
+
+/-- bodies are compared with their trailers in canonical order (the observation lists them so) -/
+def canonBody (b : Body) : Body := { b with trailers := b.trailers.map canon }
+
+def frameCount (b : Body) : Nat := b.chunks.length + (if b.trailers.isSome then 1 else 0)
+
+/-- spec clauses for one call: `req` and `script` come from the case, everything else from the
+observation of the real code -/
+def callClauses (req : Request B) (script : Option Script) (o : ObsCall) : List (String × Bool) :=
+  let input : List (String × Bool) :=
+    [("interceptor-sees-request-metadata", Spec.Interceptor.hdrsEq o.isawH req.headers),
+     ("interceptor-sees-request-extensions",
+        Spec.Interceptor.extEq o.isawX.2 req.ext && o.isawX.1 == req.ext.length)]
+  match o.decision with
+  | .accept md ext =>
+    let req' : Request Body := { method := req.method, version := req.version, uri := req.uri,
+                                 headers := req.headers, ext := req.ext, body := canonBody req.body.1 }
+    let touched : Bytes → Bool := fun k => match script with
+      | none => false
+      | some sc => sc.ops.any (Op.mentions k)
+    let sawH : Hdrs := match o.saw with
+      | some (r, _) => r.headers
+      | none => []
+    let acc := Spec.Interceptor.acceptClauses req' md ext (o.saw.map (·.1))
+    let frame := [("untouched-headers-intact", Spec.Interceptor.untouchedOk touched req.headers sawH),
+                  ("no-foreign-extensions", match o.saw with
+                     | some (_, total) => total == o.iretXTotal
+                     | none => false)]
+    let resp : List (String × Bool) := match req.body.2, o.out with
+      | .error n, .error m => [("inner-error-passed-through", n == m)]
+      | .ok r, .ok oo =>
+        Spec.Interceptor.passClauses { r with body := canonBody r.body } oo.resp ++
+        [("response-no-foreign-extensions", oo.extTotal == r.ext.length),
+         ("response-body-hints", oo.eos == bodyEos r.body && oo.lo == bodySize r.body && oo.hi == some (bodySize r.body))]
+      | _, _ => [("response-kind-passed-through", false)]
+    input ++ acc ++ frame ++ resp
+  | .reject st =>
+    let view : List (String × Bool) := match o.out with
+      | .error _ => [("reject-yields-response", false)]
+      | .ok oo =>
+        Spec.Interceptor.rejectClauses st o.saw.isSome
+          { status := oo.resp.status, headers := oo.resp.headers, endStream := oo.eos, frames := frameCount oo.resp.body } ++
+        [("reject-size-hint-zero", oo.lo == 0 && oo.hi == some 0)]
+    input ++ view
+
+def specVerdict (c : Case) (obs : List String) : String :=
+  if obs == ["panic"] then "fail:panic"
+  else match pobs c.calls.length obs with
+  | some ((ocs, ncalls), []) =>
+    let n := c.scripts.length
+    let perCall := (c.calls.zip ocs).zipIdx.map (fun ((req, o), k) =>
+      callClauses req (if n == 0 then none else c.scripts[k % n]?) o)
+    let accepts := (ocs.filter (fun o => match o.decision with
+      | .accept _ _ => true
+      | .reject _ => false)).length
+    verdict (perCall.flatten ++ [("inner-call-count", ncalls == accepts)])
+  | _ => "fail:unparseable-observation"
+
+def handle (case obs : List String) : String × String :=
+  match parseCase case with
+  | none => bad
+  | some c => (runModel c, specVerdict c obs)
+
 end DriverC12
